@@ -1,7 +1,7 @@
 """C18 — reserved CFDP messages (proxy, directory, originating ID) round-trip via TLVs.
 Family 11 of run_case (coq/theories/Run/DispMsg.v)."""
-import itertools
-from pathlib import Path
+import itertools, json, os
+from pathlib import Path, PurePosixPath, PureWindowsPath
 from harness.core import classify_exception, canon_code, run_impl
 from harness import liveprobe
 from spacepackets.util import UnsignedByteField, ByteFieldU8, ByteFieldU16, ByteFieldU32, ByteFieldU64
@@ -17,6 +17,7 @@ from spacepackets.cfdp.tlv import (
 )
 
 from harness import core
+from harness.props import c08 as _c08
 
 ID = "C18"
 _T = "spacepackets.cfdp.tlv.defs:"
@@ -55,7 +56,15 @@ ASSUMPTIONS = [
     "the message-type octet and of the parameter octet (all 256 values each) in addition to the named constants",
 ]
 TRUSTED = []
-EXPLORED_ONLY = []
+EXPLORED_ONLY = [
+    "explored_path_arguments (op 1199/0): CfdpLv.from_path / DirectoryParams.from_paths / from_strs / ProxyPutRequestParams fed "
+    "pathlib objects (Path, PurePosixPath, PureWindowsPath, a user subclass) made from names with '..', '.', '//', trailing '/', "
+    "'~', relative names: the message carries exactly str(path), the *_as_str / *_as_path accessors of the built and of the "
+    "decoded parameters give it back -- the model has no file-system object types",
+    "explored_buffers_handed_out (op 1199/1): two identical messages go through the same history; on one of them a getter that "
+    "hands out a FRESH buffer on the unchanged tree (harness/props/fresh_getters.json, measured by tools/gen_fresh_getters.py) is "
+    "read and the returned bytearray edited in place: every later observation of the two must agree",
+]
 
 PROXY = [0, 1, 2, 3, 4, 5, 6, 7, 8, 9, 11]
 DIROP = [0x10, 0x11, 0x15]
@@ -229,9 +238,11 @@ def _build(kind, fl, a, ctx):
             return ProxyPutResponse(keep(ProxyPutResponseParams.from_finished_params(keep(FinishedParams(cc, dc, fs)))))
         return ProxyPutResponse(keep(ProxyPutResponseParams(cc, dc, fs)))
     if kind == 9:
-        return ReservedCfdpMessage(a[0][0], bytearray(a[1]) if fl else bytes(a[1]))
+        ctx["buf"] = bytearray(a[1]) if fl else bytes(a[1])
+        return ReservedCfdpMessage(a[0][0], ctx["buf"])
     if kind == 10:
-        return MessageToUserTlv(bytearray(a[0]) if fl else bytes(a[0]))
+        ctx["buf"] = bytearray(a[0]) if fl else bytes(a[0])
+        return MessageToUserTlv(ctx["buf"])
     if kind in (11, 13):
         if fl:
             buf = bytearray(a[0]); t = MessageToUserTlv.unpack(buf)
@@ -340,7 +351,223 @@ def _two_decodes(a):
     return [first, second, again, third]
 
 
+# ------------------------------------------------------------------ explorations outside the model (op 1199)
+class _UserPath(PurePosixPath):
+    """a caller's own path class"""
+
+
+PATH_CLASSES = [Path, PurePosixPath, PureWindowsPath, _UserPath]
+X_PATHS, X_FRESH = 0, 1
+PATH_APIS = ["DirectoryParams.from_paths -> DirectoryListingRequest", "DirectoryParams.from_paths -> DirectoryListingResponse",
+             "CfdpLv.from_path -> ProxyPutRequestParams -> ProxyPutRequest", "DirectoryParams.from_strs -> DirectoryListingRequest",
+             "CfdpLv.from_str -> ProxyPutRequestParams -> ProxyPutRequest"]
+
+
+def _x_paths(a):
+    """names handed over as pathlib objects (or str) arrive as str(argument) -- what pathlib itself yields -- in the LV, in
+    the packed message, and in the *_as_str / *_as_path accessors of the caller's and of the decoded parameters"""
+    api, pc, idv, idw = a[0][1:5]
+    s1, s2 = bytes(a[1]).decode(), bytes(a[2]).decode()
+    P = PATH_CLASSES[pc]
+    if api in (0, 1, 2):
+        x1, x2 = P(s1), P(s2)
+    else:
+        x1, x2 = s1, s2
+    t1, t2 = str(x1), str(x2)
+    w1, w2 = t1.encode(), t2.encode()
+    what = PATH_APIS[api]
+    put = api in (2, 4)
+    try:
+        if api in (0, 1):
+            params = DirectoryParams.from_paths(x1, x2)
+        elif api == 3:
+            params = DirectoryParams.from_strs(x1, x2)
+        else:
+            mk = CfdpLv.from_path if api == 2 else CfdpLv.from_str
+            params = ProxyPutRequestParams(UnsignedByteField(idv, idw), mk(x1), mk(x2))
+    except ValueError as e:
+        if len(w1) > 255 or len(w2) > 255:
+            return None
+        return (what + "/refused", "arguments %r, %r raised %r" % (x1, x2, e))
+    if len(w1) > 255 or len(w2) > 255:
+        return (what + "/too-long-accepted", "%d / %d octets accepted" % (len(w1), len(w2)))
+
+    def read(pr, who):
+        lv1, lv2 = (pr.source_file_name, pr.dest_file_name) if put else (pr.dir_path, pr.dir_file_name)
+        if bytes(lv1.value) != w1 or bytes(lv2.value) != w2:
+            return (what + "/name-is-not-the-text-of-the-argument",
+                    "%s: arguments %r, %r arrive as %r, %r; str() of the arguments is %r, %r" % (who, x1, x2, bytes(lv1.value), bytes(lv2.value), t1, t2))
+        acc = ("source_file", "dest_file") if put else ("dir_path", "dir_file_name")
+        for nm, t in zip(acc, (t1, t2)):
+            got_s, got_p = getattr(pr, nm + "_as_str"), getattr(pr, nm + "_as_path")
+            if got_s != t:
+                return (what + "/%s_as_str" % nm, "%s: %r instead of %r" % (who, got_s, t))
+            if not isinstance(got_p, Path) or got_p != Path(t) or str(got_p) != str(Path(t)):
+                return (what + "/%s_as_path" % nm, "%s: %r instead of %r" % (who, got_p, Path(t)))
+        return None
+    r = read(params, "the caller's parameters")
+    if r is not None:
+        return r
+    idf = lv(be(idv, idw)) if put else []
+    f = ([0x80] if api == 1 else []) + idf + lv(w1) + lv(w2)
+    mt = 0 if put else 0x11 if api == 1 else 0x10
+    try:
+        msg = ProxyPutRequest(params) if put else DirectoryListingResponse(True, params) if api == 1 else DirectoryListingRequest(params)
+    except ValueError as e:
+        if len(f) + 5 > 255:
+            return None
+        return (what + "/refused", "message of %d octets refused: %r" % (len(f) + 5, e))
+    if len(f) + 5 > 255:
+        return (what + "/too-long-accepted", "value of %d octets accepted" % (len(f) + 5))
+    want = bytes(reserved_tlv(mt, f))
+    if bytes(msg.pack()) != want or msg.packet_len != len(want):
+        return (what + "/layout", "arguments %r, %r pack to %r, the standard says %r" % (x1, x2, bytes(msg.pack()), want))
+    back = MessageToUserTlv.unpack(want + b"\x55").to_reserved_msg_tlv()
+    dec = back.get_proxy_put_request_params() if put else back.get_dir_listing_response_params()[1] if api == 1 else back.get_dir_listing_request_params()
+    return read(dec, "the decoded parameters")
+
+
+GETTERS_X = ["value", "pack()", "tlv.value", "tlv.pack()", "to_generic_msg_to_user_tlv().value", "to_generic_msg_to_user_tlv().pack()",
+             "to_reserved_msg_tlv().value", "to_reserved_msg_tlv().pack()",
+             "get_proxy_put_request_params().source_file_name.value", "get_proxy_put_request_params().dest_file_name.value",
+             "get_dir_listing_request_params().dir_path.value", "get_dir_listing_request_params().dir_file_name.value",
+             "get_dir_listing_response_params()[1].dir_path.value", "get_dir_listing_response_params()[1].dir_file_name.value",
+             "get_originating_transaction_id().source_id.as_bytes",
+             "(caller) params: first name LV.value", "(caller) params: second name LV.value", "(caller) value argument"]
+EDITS = ["flip every octet", "extend", "truncate", "flip and extend", "clear", "insert in front"]
+_FRESH = None
+
+
+def fresh_getters():
+    global _FRESH
+    if _FRESH is None:
+        try:
+            j = json.load(open(os.path.join(os.path.dirname(__file__), "fresh_getters.json")))[ID]
+        except Exception:
+            j = {}
+        _FRESH = {c: {g: set(e["stable"]) for g, e in gs.items() if e.get("fresh")} for c, gs in j.items()}
+    return _FRESH
+
+
+def _get_buffer(o, ctx, g):
+    try:
+        if g == 0:
+            return o.value
+        if g == 1:
+            return o.pack()
+        if g == 2:
+            return o.tlv.value
+        if g == 3:
+            return o.tlv.pack()
+        if g in (4, 5):
+            t = o.to_generic_msg_to_user_tlv()
+            return t.value if g == 4 else t.pack()
+        if g in (6, 7):
+            t = o.to_reserved_msg_tlv()
+            return None if t is None else (t.value if g == 6 else t.pack())
+        if g in (8, 9):
+            x = o.get_proxy_put_request_params()
+            return None if x is None else (x.source_file_name.value if g == 8 else x.dest_file_name.value)
+        if g in (10, 11):
+            x = o.get_dir_listing_request_params()
+            return None if x is None else (x.dir_path.value if g == 10 else x.dir_file_name.value)
+        if g in (12, 13):
+            x = o.get_dir_listing_response_params()
+            return None if x is None else (x[1].dir_path.value if g == 12 else x[1].dir_file_name.value)
+        if g == 14:
+            x = o.get_originating_transaction_id()
+            return None if x is None else x.source_id.as_bytes
+        if g in (15, 16):
+            pr = ctx.get("params")
+            if isinstance(pr, ProxyPutRequestParams):
+                return (pr.source_file_name if g == 15 else pr.dest_file_name).value
+            if isinstance(pr, DirectoryParams):
+                return (pr.dir_path if g == 15 else pr.dir_file_name).value
+            return None
+        if g == 17:
+            return ctx.get("buf")
+    except Exception:
+        return None
+    return None
+
+
+def _observe(o, reserved):
+    def w(f):
+        try:
+            r = f()
+            return [0] + (list(r) if isinstance(r, (bytes, bytearray, list, tuple)) else [int(r)])
+        except Exception as e:
+            return [1, canon_code(classify_exception(e))]
+    obs = [("tlv_type", w(lambda: o.tlv_type)), ("tlv.tlv_type", w(lambda: o.tlv.tlv_type)), ("tlv.value_len", w(lambda: o.tlv.value_len)),
+           ("value", w(lambda: o.value)), ("packet_len", w(lambda: o.packet_len)), ("pack()", w(o.pack))]
+    if reserved:
+        obs.append(("classification", w(lambda: _mstep(o, True, [M_CLASSIFY]))))
+        obs.append(("to_generic_msg_to_user_tlv().pack()", w(lambda: o.to_generic_msg_to_user_tlv().pack())))
+        for k in range(8):
+            obs.append((PARSERS[k] + "()", w(lambda: _flat(k, getattr(o, PARSERS[k])()))))
+    else:
+        obs.append(("is_reserved_cfdp_message()", w(lambda: [int(o.is_reserved_cfdp_message())])))
+        obs.append(("to_reserved_msg_tlv()", w(lambda: _mstep(o, False, [M_TORES]))))
+    return obs
+
+
+def _x_fresh(a):
+    """twins (see c08._x_fresh): -> (class name, getter, was a bytearray edited, observations in which the twins differ)"""
+    kind, fl = a[1]
+    g, how, mask = a[2]
+    ops = a[6:]
+    reserved = kind <= 9 or kind == 13
+    ca, cb = {}, {}
+    try:
+        A = _build(kind, fl, a[3:6], ca)
+        B = _build(kind, fl, a[3:6], cb)
+    except Exception:
+        return (MNAME[kind], GETTERS_X[g], False, [], False, [])
+    edited, differ, applied, names = False, [], False, []
+    for n in range(len(ops) + 1):
+        if (mask >> n) & 1:
+            _get_buffer(A, ca, g)
+            buf = _get_buffer(B, cb, g)
+            applied = applied or buf is not None
+            if isinstance(buf, bytearray):
+                _c08._edit(buf, how); edited = True
+        for (nm, x), (_, y) in zip(_observe(A, reserved), _observe(B, reserved)):
+            if nm not in names:
+                names.append(nm)
+            if x != y and nm not in differ:
+                differ.append(nm)
+        if n < len(ops):
+            ra = _mstatus(lambda: _mstep(A, reserved, ops[n]))
+            rb = _mstatus(lambda: _mstep(B, reserved, ops[n]))
+            if ra != rb and "result of the next operation" not in differ:
+                differ.append("result of the next operation")
+    return (type(A).__name__, GETTERS_X[g], edited, differ, applied, names + ["result of the next operation"])
+
+
+def _x_fresh_check(a):
+    cls, getter, edited, differ = _x_fresh(a)[:4]
+    stable = fresh_getters().get(cls, {}).get(getter)
+    if stable is None:
+        return None
+    bad = [d for d in differ if d in stable]
+    if bad:
+        return ("%s.%s/editing-the-returned-buffer-changes-the-object" % (cls, getter),
+                "%s (construction path %d, argument flavour %d): after `%s` was read and the returned bytearray edited (%s) the object "
+                "differs from an untouched twin in %s (history %s)" % (cls, a[1][0], a[1][1], getter, EDITS[a[2][1]], bad, [x[:6] for x in a[6:]]))
+    return None
+
+
+def _explore(a):
+    if a[0][0] == X_PATHS:
+        return _x_paths(a)
+    if a[0][0] == X_FRESH:
+        return _x_fresh_check(a)
+    raise RuntimeError("bad exploration")
+
+
 def impl(op, a):
+    if op == 1199:
+        return [[1]] if _explore(a) is None else [[0, a[0][0]]]
     if op == 1160:
         return _msg_history(a)
     if op == 1161:
@@ -509,8 +736,18 @@ def rbytes(rng, n):
     return [rng.randrange(256) for _ in range(n)]
 
 
+def magic_ids(w):
+    """ID values whose octets repeat the format's own magic / delimiter octets: the 'cfdp' marker (0x63666470), its tail,
+    the ID's own length octet, message-type octets"""
+    c = [bytes((CFDP * 2)[:w]), bytes(([0] * 8 + CFDP)[-w:]), bytes((CFDP[1:] + CFDP)[:w]), bytes([w] * w), bytes([0x10] * w),
+         bytes(([2, 5] + CFDP + [0, 0])[:w])]
+    return [int.from_bytes(x, "big") for x in c]
+
+
 def rid(rng, w):
-    return rng.choice([0, 1, 256 ** w - 1, 256 ** w // 2, rng.randrange(256 ** w)]) if w else 0
+    if not w:
+        return 0
+    return rng.choice([0, 1, 256 ** w - 1, 256 ** w // 2, rng.randrange(256 ** w), rng.choice(magic_ids(w))])
 
 
 def valid_builds(rng, n):
@@ -527,6 +764,12 @@ def valid_builds(rng, n):
         out.append((1106, [[rng.randrange(2)], rbytes(rng, rng.randrange(0, 9)), rbytes(rng, rng.randrange(0, 9))]))
         out.append((1107, [[rng.randrange(2), rng.randrange(2)]]))
         out.append((1108, [[rng.choice(CC), rng.randrange(2), rng.randrange(4)]]))
+        # content that repeats the marker / the delimiters of the format
+        w = rng.choice(WIDTHS)
+        out.append((1100, [[rng.choice(magic_ids(w)), w], rmagic(rng, rng.randrange(4, 12)), rmagic(rng, rng.randrange(0, 12))]))
+        out.append((1104, [[rng.choice(magic_ids(4)), 4, rng.choice(magic_ids(sw)), sw]]))
+        out.append((1105, [rmagic(rng, rng.randrange(4, 12)), rmagic(rng, rng.randrange(0, 12))]))
+        out.append((1106, [[rng.randrange(2)], rmagic(rng, rng.randrange(0, 12)), rmagic(rng, rng.randrange(4, 12))]))
     return out
 
 
@@ -541,10 +784,44 @@ def rtext(rng, n):
     return [rng.randrange(0x21, 0x7f) for _ in range(n - len(t))] + t
 
 
+MAGIC = [CFDP, CFDP + [0], CFDP + [0x10], CFDP + [10], CFDP * 2, [0x2f] + CFDP + [0x2f], list(b"/data/cfdp/image.bin"), list(b"cfdp.log"),
+         [2, 5] + CFDP + [9], [4] + CFDP, CFDP[1:], [0x63], CFDP[:3], [1, 0x63], [0x10, 0x10], [0, 0, 0], [2, 2, 2]]
+
+
+def rmagic(rng, n):
+    """n octets that repeat the format's own magic / delimiter octets: the 'cfdp' marker (at the start, at the end, anywhere,
+    twice), a whole message header, an LV of the marker, every octet equal to the length octet in front of the field"""
+    if n == 0:
+        return []
+    if rng.random() < 0.2:
+        return [n & 255] * n
+    m = rng.choice(MAGIC)
+    if len(m) >= n:
+        return (m * n)[:n]
+    fill = [rng.randrange(0x21, 0x7f) for _ in range(n - len(m))]
+    pos = rng.choice([0, len(fill), rng.randrange(len(fill) + 1)])
+    return fill[:pos] + m + fill[pos:]
+
+
+def rspecial_text(rng, n):
+    """valid UTF-8 of exactly n octets around a fragment that is not stable under Unicode normalisation / case mapping, or
+    that a path library would rewrite ('..', '.', '//', trailing '/', '~', blanks)"""
+    f = rng.choice(_c08.NORM + _c08.PATHY) if rng.random() < 0.6 else rng.choice(_c08.PATH_PRE) + rng.choice(_c08.PATH_SUF)
+    if len(f) > n:
+        return rtext(rng, n)
+    fill = [rng.randrange(0x21, 0x7f) for _ in range(n - len(f))]
+    pos = rng.choice([0, len(fill), rng.randrange(len(fill) + 1)])
+    return fill[:pos] + list(f) + fill[pos:]
+
+
 def rname(rng, n):
     if n >= 3 and rng.random() < 0.06:
         return [0xef, 0xbb, 0xbf] + rtext(rng, n - 3)     # starts with U+FEFF
-    k = rng.randrange(6)
+    k = rng.randrange(9)
+    if k == 6:
+        return rmagic(rng, n)
+    if k >= 7:
+        return rspecial_text(rng, n)
     return [0x80] * n if k == 0 else [0xFF] * n if k == 1 else rbytes(rng, n) if k == 2 else rtext(rng, n)
 
 
@@ -574,7 +851,8 @@ def build_args(rng, kind, tight=False):
     if kind == 8:
         return [[rng.choice(CC), rng.randrange(2), rng.randrange(4)], [], []]
     if kind == 9:
-        return [[rng.choice(PROXY + DIROP + [10, 12, 255])], rbytes(rng, rng.choice([0, 1, 3, 20, 250])), []]
+        pay = rbytes(rng, rng.choice([0, 1, 3, 20, 250])) if rng.random() < 0.6 else rmagic(rng, rng.choice([3, 4, 5, 9, 20, 250]))
+        return [[rng.choice(PROXY + DIROP + [10, 12, 255, 0x63, 0x70])], pay, []]
     # message-to-user paths: the octets of some built message (mostly), or arbitrary content
     if rng.random() < 0.8:
         k = rng.randrange(9)
@@ -653,6 +931,58 @@ def built_octets(rng, kind, tight=False):
         return built_octets(rng, kind, False)
     k = {0: 1, 2: 3, 3: 4, 4: 0, 5: 5, 6: 6, 7: 7, 8: 2}.get(kind)
     return reserved_tlv(MSG_TYPE[1100 + kind], f), k
+
+
+def fresh_case(rng, kind, fl, g):
+    reserved = kind <= 9 or kind == 13
+    codes = sorted(M_APPLIES[reserved])
+    weights = [5 if c in (M_PACK, M_PARSER) else 3 if c in (M_CLASSIFY, M_TOGENERIC, M_ISRES, M_TORES) else 1 for c in codes]
+    ops = [mhist_op(rng, reserved, rng.choices(codes, weights)[0]) for _ in range(rng.choice([0, 1, 2, 3, 5, 8]))]
+    mask = 0
+    for _ in range(rng.choice([1, 1, 2, 3])):
+        mask |= 1 << rng.randrange(len(ops) + 1)
+    return (1199, [[X_FRESH], [kind, fl], [g, rng.randrange(len(EDITS)), mask]] + build_args(rng, kind, rng.random() < 0.15) + ops)
+
+
+CLASS_OF_KIND = {0: "ProxyPutRequest", 1: "ProxyCancelRequest", 2: "ProxyClosureRequest", 3: "ProxyTransmissionMode",
+                 4: "OriginatingTransactionId", 5: "DirectoryListingRequest", 6: "DirectoryListingResponse",
+                 7: "DirectoryListingParameters", 8: "ProxyPutResponse", 9: "ReservedCfdpMessage", 10: "MessageToUserTlv",
+                 11: "MessageToUserTlv", 12: "MessageToUserTlv", 13: "ReservedCfdpMessage"}
+
+
+def fresh_cases(rng, reps, every_getter=False):
+    out = []
+    for kind in MKINDS:
+        ok = fresh_getters().get(CLASS_OF_KIND[kind], {})
+        for fl in (0, 1, 2):
+            for g in range(len(GETTERS_X)):
+                if every_getter or GETTERS_X[g] in ok:
+                    out += [fresh_case(rng, kind, fl, g) for _ in range(reps)]
+    return out
+
+
+def path_cases(rng, big):
+    P = _c08
+    names = list(P.PATHY) + [list(f) for f in P.NORM[:16]] + [[], [0x61], list(b"/data/current/../archive"), list(b"../listings/archive.txt"),
+                                                                list(b"/data/cfdp/../cfdp/x")]
+    for pre in P.PATH_PRE:
+        for suf in P.PATH_SUF:
+            names.append(pre + rtext(rng, rng.randrange(0, 5)) + suf)
+    for n in (120, 124, 125, 126, 200, 250, 255, 256, 300):
+        names.append((list(b"a//") * 100)[:n]); names.append((list(b"../") * 100)[:n]); names.append(rspecial_text(rng, n))
+    for _ in range(200 if big else 40):
+        names.append(rspecial_text(rng, rng.choice([1, 2, 3, 5, 8, 13, 40])))
+    out = []
+    for nm in names:
+        for api in range(len(PATH_APIS)):
+            for pc in (range(len(PATH_CLASSES)) if api < 3 else [0]):
+                w = rng.choice(WIDTHS)
+                other = rng.choice(names)
+                if len(other) > 100:
+                    other = other[:rng.choice([0, 3, 100])]
+                a, b = (nm, other) if rng.random() < 0.5 else (other, nm)
+                out.append((1199, [[X_PATHS, api, pc, rid(rng, w), w], a, b]))
+    return out
 
 
 
@@ -797,6 +1127,44 @@ def streams(tier, rng):
                 cases.append((1104, a)); cases.append((1112, [reserved_tlv(10, fields(1104, a))]))
                 cases.append((1160, [[4, rng.randrange(2)]] + a + [[], []] + [[M_PACK], [M_PARSER, 0], [M_PACK]]))
     yield "coinciding_limits", "exact", cases
+    # 7b. content that repeats the format's own magic / delimiter octets (the 'cfdp' marker, a message header, an LV of the
+    #     marker, the message-type octet, octets equal to the length octet in front), for every reserved message kind: built
+    #     (the oracle reads it back through every parser), decoded, classified
+    cases = []
+    names = [list(m) for m in MAGIC] + [rmagic(rng, n) for n in (4, 5, 8, 9, 16, 40, 120) for _ in range(4 if big else 2)]
+    for nm in names:
+        other = rng.choice(names)
+        for w in WIDTHS:
+            for v in magic_ids(w)[:3] + [rng.choice(magic_ids(w)), rid(rng, w)]:
+                cases.append((1100, [[v, w], nm, other]) if rng.random() < 0.5 else (1100, [[v, w], other, nm]))
+        cases.append((1105, [nm, other])); cases.append((1105, [other, nm]))
+        cases.append((1106, [[rng.randrange(2)], nm, other])); cases.append((1106, [[rng.randrange(2)], other, nm]))
+        for mt in PROXY + DIROP + [10, 0x63, 0x70]:
+            cases.append((1109, [[mt], nm]))
+            cases += all_getters(reserved_tlv(mt, nm))
+            cases += all_getters(reserved_tlv(mt, [rng.choice([0, 1, 0x80, 0x33, 0x11, rng.randrange(256)])] + nm))
+            if mt in (0, 0x10, 0x11):
+                f = ([rng.choice([0, 0x80])] if mt == 0x11 else []) + (lv(rng.choice([CFDP, CFDP * 2, [0x63]])) if mt == 0 else []) + lv(nm) + lv(other)
+                if len(f) <= 250:
+                    cases += all_getters(reserved_tlv(mt, f))
+        cases.append((1110, [nm])); cases.append((1110, [CFDP + nm])); cases.append((1110, [nm + CFDP]))
+        cases.append((1160, [[9, rng.randrange(2)], [rng.choice(PROXY + DIROP + [10, 0x63])], nm, [],
+                             [M_CLASSIFY], [M_PARSER, rng.randrange(8)], [M_TOGENERIC], [M_PACK]]))
+        v = (CFDP + [rng.choice(PROXY + DIROP + [10, 0x63])] + nm)[:255]
+        cases.append((1160, [[11, rng.randrange(2)], [2, len(v)] + v, [], [], [M_ISRES], [M_TORES], [M_PACK]]))
+        cases.append((1160, [[13, rng.randrange(2)], [2, len(v)] + v, [], [], [M_CLASSIFY], [M_PARSER, rng.randrange(8)], [M_TOGENERIC]]))
+    for sw, qw in itertools.product(WIDTHS, repeat=2):
+        for sv in magic_ids(sw):
+            for qv in magic_ids(qw)[:2] + [rid(rng, qw)]:
+                cases.append((1104, [[sv, sw, qv, qw]])); cases.append((1104, [[qv % 256 ** sw, sw, sv % 256 ** qw, qw]]))
+    for k in (1, 2, 3, 5, 16):                     # fields made of the message's own type octet / of its own length octets
+        for w in WIDTHS:
+            cases.append((1100, [[0, w], [0] * k, [0] * k])); cases.append((1100, [[int.from_bytes(bytes([w] * w), "big"), w], [k] * k, [k] * k]))
+            cases.append((1104, [[int.from_bytes(bytes([10] * w), "big"), w, int.from_bytes(bytes([10] * w), "big"), w]]))
+        cases.append((1105, [[0x10] * k, [0x10] * k])); cases.append((1105, [[k] * k, [k] * k]))
+        for ok in (0, 1):
+            cases.append((1106, [[ok], [0x11] * k, [0x11] * k])); cases.append((1106, [[ok], [0x80 * ok] * k, [k] * k]))
+    yield "magic_content", "exact", cases
     # 8. live-object histories and two messages decoded in a row
     cases = mhist_systematic(rng) + mhist_systematic(rng)
     if big:
@@ -820,6 +1188,9 @@ def streams(tier, rng):
         cases.append((1161, [built_octets(rng, ka)[0], [2, 3, 1, 2, 3], [rng.randrange(8), rng.randrange(8)]]))
         cases.append((1161, [[2, 3, 1, 2, 3], built_octets(rng, ka)[0], [rng.randrange(8), rng.randrange(8)]]))
     yield "two_decodes_in_a_row", "exact", cases
+    # 9. explorations outside the model (op 1199)
+    yield "explored_path_arguments", "exact", path_cases(rng, big)
+    yield "explored_buffers_handed_out", "exact", fresh_cases(rng, 6 if big else 2)
 
 
 # ------------------------------------------------------------------ oracle
@@ -964,6 +1335,16 @@ def oracle(case, ires, sres):
         return _mhist_oracle(a, ires)
     if op == 1161:
         return _two_oracle(a, ires)
+    if op == 1199:
+        if ires == [[0], [1]]:
+            return None
+        try:
+            r = _explore(a)
+        except Exception as e:
+            r = ("exploration-%d/raises" % a[0][0], "%r" % (e,))
+        if r is None:
+            r = ("exploration-%d/not-reproducible" % a[0][0], "the adapter answered %s" % (ires[:2],))
+        return ("C18/" + r[0], r[1])
     if err and code == 99 and (op == 1111 or op in GETTERS):
         try:
             impl(op, a); why = "not reproducible"
@@ -993,7 +1374,11 @@ def oracle(case, ires, sres):
         want = [[0], [1], [mt], [int(mt in PROXY), int(mt in DIROP), int(mt == 10)], [mt if mt in PROXY else -1],
                 [mt if mt in DIROP else -1], v, [0] + exp]
         if cl != want:
-            return ("C18/%s/classification" % name, "decoded classification %s, expected %s" % (cl[:6], want[:6]))
+            k = next((i for i in range(min(len(cl), len(want))) if cl[i] != want[i]), min(len(cl), len(want)))
+            part = ["status", "is reserved", "message type", "proxy / directory / originating", "proxy type", "directory type",
+                    "value of the reserved message", "generic TLV octets"][min(k, 7)]
+            return ("C18/%s/classification" % name, "the packed message %s decoded through MessageToUserTlv.unpack / to_reserved_msg_tlv differs "
+                    "in: %s: %s, expected %s" % (exp[:24], part, cl[k:k + 1], want[k:k + 1]))
         if op in BUILD_TO_GET:
             back = run_impl(impl, BUILD_TO_GET[op], [exp + [0x55]])
             if back != [[0], [2]] + expected_params(op, a):
@@ -1068,5 +1453,7 @@ def _valid(rng):
 
 DECODERS = [
     {"op": g, "name": "MessageToUserTlv.unpack/to_reserved_msg_tlv/ReservedCfdpMessage parser %d" % g, "extra": [],
-     "valid": _valid, "declared_len": lambda b: b[1] + 2} for g in [1111] + GETTERS
+     "valid": _valid, "declared_len": lambda b: b[1] + 2,
+     **({"reported_len": lambda view: [len(view[6]) - 1] if len(view) > 6 and view[6][:1] == [0] else []} if g == 1111 else {})}
+    for g in [1111] + GETTERS
 ]
